@@ -1,6 +1,6 @@
 (* C01, kernel level (ckernels vertical, docs/ckernels.md).
-   PROVED FOR ALL INPUTS (symbolic form): sha256_single (C01_kernel_sha256_single_symbolic).  PARTIAL (names ending in
-   _partial): sha1_single, sha512_single, md5_single - known answers through the translated code.
+   PROVED FOR ALL INPUTS: sha256_single, sha1_single, sha512_single, md5_single (C01_kernel_<alg>_single);
+   the Examples are non-vacuity instances (known answers through the translated code).
    The base block functions sha256_single, sha1_single, sha512_single, md5_single of the
    <alg>_mb/<alg>_ctx_base.c files are translated from the current source on every run
    (tr/ckernel.py -> Gen/CKernelGen.v) and run by the interpreter of Model/CKernel.v.
@@ -15,28 +15,49 @@
    and edge blocks at every run (checks/ckernels.py). *)
 From Coq Require Import NArith List.
 From ISAL Require Import Base.Words Base.ListUtil Spec.MD Spec.SHA1 Spec.SHA256 Spec.SHA512 Spec.MD5
-  Model.CKernel Gen.CKernelGen Model.CKSym Proofs.CKSymFacts Model.CKSymSpec Proofs.CKSymSha256.
+  Model.CKernel Gen.CKernelGen Model.CKSym Proofs.CKSymFacts Model.CKSymSpec Proofs.CKSymSha256 Proofs.CKSymSha256Glue Proofs.CKSymKernels.
 Import ListNotations.
 Local Open Scope N_scope.
 
-(* sha256_single, translated from the current sha256_mb/sha256_ctx_base.c: for EVERY valuation rho of the
-   40 input words (16 data words as the C loads them, 8 chaining words, 16 words of the uninitialised
-   w[]) that respects their 32-bit bounds (wf of the variable table), the translated body runs to
-   completion - no out-of-bounds access, no shift >= width, no uninitialised scalar read - and leaves in
-   `digest` the FIPS 180-4 compression (sha256_compress_words) of the chaining words and the byte-swapped
-   data words.  Obtained from ONE vm_compute of the verified symbolic equivalence checker on the
-   regenerated body (Proofs/CKSymSha256.v sha256_check_true) + its soundness theorems.
-   Still missing for the statement about c_sha256_single itself: instantiating rho at the concrete
-   initial state (mechanical; wip/ckernels/unfinished/CKSymSha256_glue.v.txt). *)
-Theorem C01_kernel_sha256_single_symbolic : forall rho : nat -> N,
-  CKSymFacts.wf rho (ck_t0 sha256_objs) ->
-  exists st',
-    exec 5000 c_sha256_single_body (conc (tvals rho (ck_t0 sha256_objs)) (ck_st0 sha256_nvars sha256_objs)) = Some st' /\
-    get_obj st' 1 =
-    Some (sha256_compress_words (map (V rho (ck_t0 sha256_objs)) (map N.of_nat (seq 16 8)))
-            (map (bswap 32) (map (V rho (ck_t0 sha256_objs)) (map N.of_nat (seq 0 16))))).
-Proof. exact sha256_sym_sound. Qed.
-Print Assumptions C01_kernel_sha256_single_symbolic.
+(* sha256_single, translated from the current sha256_mb/sha256_ctx_base.c, equals the FIPS 180-4
+   compression function for EVERY chaining value and EVERY 64-byte block, whatever the
+   uninitialised w[] array held (junk); the block is seen through uint32_t loads (little endian);
+   Some _ also means: no out-of-bounds access, no shift >= width, no uninitialised scalar read.
+   Re-established on every regenerated kernel by one vm_compute of the verified symbolic
+   equivalence checker (Proofs/CKSymSha256.v sha256_check_true) + its soundness theorems. *)
+Theorem C01_kernel_sha256_single : forall (h block junk : list N),
+  length h = 8%nat -> Forall (fun x => x < 2 ^ 32) h ->
+  length block = 64%nat -> Forall (fun x => x < 2 ^ 8) block ->
+  exists F0, forall fuel, (F0 <= fuel)%nat ->
+    c_sha256_single fuel (le_words 4 block) h junk = Some (sha256_compress h block).
+Proof. exact ck_sha256_single_eq. Qed.
+Print Assumptions C01_kernel_sha256_single.
+
+(* the same for sha1_single, sha512_single (64-bit words, 128-byte block, read through uint64_t
+   loads) and md5_single (little-endian words, no byte swap, no local array) *)
+Theorem C01_kernel_sha1_single : forall (h block junk : list N),
+  length h = 5%nat -> Forall (fun x => x < 2 ^ 32) h ->
+  length block = 64%nat -> Forall (fun x => x < 2 ^ 8) block ->
+  exists F0, forall fuel, (F0 <= fuel)%nat ->
+    c_sha1_single fuel (le_words 4 block) h junk = Some (sha1_compress h block).
+Proof. exact ck_sha1_single_eq. Qed.
+Print Assumptions C01_kernel_sha1_single.
+
+Theorem C01_kernel_sha512_single : forall (h block junk : list N),
+  length h = 8%nat -> Forall (fun x => x < 2 ^ 64) h ->
+  length block = 128%nat -> Forall (fun x => x < 2 ^ 8) block ->
+  exists F0, forall fuel, (F0 <= fuel)%nat ->
+    c_sha512_single fuel (le_words 8 block) h junk = Some (sha512_compress h block).
+Proof. exact ck_sha512_single_eq. Qed.
+Print Assumptions C01_kernel_sha512_single.
+
+Theorem C01_kernel_md5_single : forall (h block : list N),
+  length h = 4%nat -> Forall (fun x => x < 2 ^ 32) h ->
+  length block = 64%nat -> Forall (fun x => x < 2 ^ 8) block ->
+  exists F0, forall fuel, (F0 <= fuel)%nat ->
+    c_md5_single fuel (le_words 4 block) h = Some (md5_compress h block).
+Proof. exact ck_md5_single_eq. Qed.
+Print Assumptions C01_kernel_md5_single.
 
 Local Fixpoint pat_from (n : nat) (b : N) : list N :=
   match n with O => [] | S m => b :: pat_from m ((b + 7) mod 256) end.
@@ -70,26 +91,26 @@ Example C01_kernel_sha256_abc :
 Proof. vm_compute. reflexivity. Qed.
 Print Assumptions C01_kernel_sha256_abc.
 
-Example C01_kernel_sha1_abc_partial :
+Example C01_kernel_sha1_abc :
   c_sha1_single big_fuel (le_words 4 abc64) sha1_iv [7; 7] =
   Some [0xa9993e36; 0x4706816a; 0xba3e2571; 0x7850c26c; 0x9cd0d89d].
 Proof. vm_compute. reflexivity. Qed.
-Print Assumptions C01_kernel_sha1_abc_partial.
+Print Assumptions C01_kernel_sha1_abc.
 
-Example C01_kernel_sha512_abc_partial :
+Example C01_kernel_sha512_abc :
   c_sha512_single big_fuel (le_words 8 abc128) sha512_iv [] =
   Some [0xddaf35a193617aba; 0xcc417349ae204131; 0x12e6fa4e89a97ea2; 0x0a9eeee64b55d39a;
         0x2192992a274fc1a8; 0x36ba3c23a3feebbd; 0x454d4423643ce80e; 0x2a9ac94fa54ca49f].
 Proof. vm_compute. reflexivity. Qed.
-Print Assumptions C01_kernel_sha512_abc_partial.
+Print Assumptions C01_kernel_sha512_abc.
 
-Example C01_kernel_md5_abc_partial :
+Example C01_kernel_md5_abc :
   c_md5_single big_fuel (le_words 4 abc64le) md5_iv = Some (md5_compress md5_iv abc64le).
 Proof. vm_compute. reflexivity. Qed.
-Print Assumptions C01_kernel_md5_abc_partial.
+Print Assumptions C01_kernel_md5_abc.
 
 (* translated = specification on edge and pattern blocks, with different junk in w[] *)
-Example C01_kernel_agree_blocks_partial :
+Example C01_kernel_agree_blocks :
   forallb (fun b => b)
     [agree256 sha256_iv (pat_from 64 3) [1; 2; 3]; agree256 (repeat 0xffffffff 8) (repeat 0xff 64) [];
      agree256 (repeat 0 8) (repeat 0 64) (repeat 0xffffffff 16);
@@ -97,8 +118,8 @@ Example C01_kernel_agree_blocks_partial :
      agree512 sha512_iv (pat_from 128 3) []; agree512 (repeat 0xffffffffffffffff 8) (repeat 0xff 128) [5];
      agree5 md5_iv (pat_from 64 3); agree5 (repeat 0xffffffff 4) (repeat 0xff 64)] = true.
 Proof. vm_compute. reflexivity. Qed.
-Print Assumptions C01_kernel_agree_blocks_partial.
+Print Assumptions C01_kernel_agree_blocks.
 
 (* too little fuel is an error, never a wrong digest *)
-Example C01_kernel_out_of_fuel_partial : c_sha256_single 100 (le_words 4 abc64) sha256_iv [] = None.
+Example C01_kernel_out_of_fuel : c_sha256_single 100 (le_words 4 abc64) sha256_iv [] = None.
 Proof. vm_compute. reflexivity. Qed.
